@@ -29,7 +29,7 @@ fn plan(cfg: &RunCfg) -> EncPlan {
     p.len_max = 255;
     p.len_reps = cfg.pick(6, 200) as u32;
     p.max_body = 255;
-    p.random_per_form = cfg.pick(15_000, 400_000);
+    p.random_per_form = cfg.pick(15_000, 1_500_000);
     p.param_sweep_reps = cfg.pick(1, 20) as u32;
     p.addr_sweep_reps = cfg.pick(1, 20) as u32;
     p.pair_forms = if cfg.thorough() {
